@@ -33,6 +33,10 @@ enum Case {
     Refusals { suite: String, n: u16, t: u16, seed: String },
     /// a large helper set (all other participants of a group of n)
     ManyHelpers { suite: String, n: u16, t: u16, seed: String },
+    /// repair in a group that went through a refresh first: with the refreshed public key package, with a
+    /// legacy (threshold-less) package upgraded by the distributed refresh, and with a public key package
+    /// that predates the refresh (group key and threshold are all part 3 needs from it)
+    AfterRefresh { suite: String, n: u16, t: u16, kind: String, target: usize, seed: String },
     /// every blinding vector on the tiny field
     Tiny { q: u64, n: u16, t: u16, target: u64, helpers: u32 },
 }
@@ -113,6 +117,16 @@ impl Prop for C11 {
         }
         for suite in REAL_SUITES {
             let n = if suite == "ed448" { 20u16 } else { 60u16 };
+            for (n2, t2) in [(3u16, 2u16), (4, 3)] {
+                if suite == "ed448" && n2 > 3 {
+                    continue;
+                }
+                for kind in ["dealer/refreshed-pkp", "dkg/refreshed-pkp", "dkg/legacy-pkp-upgraded", "dealer/stale-pkp", "dkg/stale-pkp"] {
+                    for target in 0..n2 as usize {
+                        out.push(serde_json::to_value(Case::AfterRefresh { suite: suite.to_string(), n: n2, t: t2, kind: kind.to_string(), target, seed: format!("s{seed}") }).unwrap());
+                    }
+                }
+            }
             out.push(serde_json::to_value(Case::ManyHelpers { suite: suite.to_string(), n, t: 2, seed: format!("s{seed}") }).unwrap());
             out.push(serde_json::to_value(Case::ManyHelpers { suite: suite.to_string(), n: n / 2, t: n / 2 - 1, seed: format!("s{seed}") }).unwrap());
             if suite != "ed448" {
@@ -145,6 +159,7 @@ impl Prop for C11 {
         let c: Case = serde_json::from_value(case.clone()).expect("case");
         match &c {
             Case::Real { suite, .. } | Case::Refusals { suite, .. } | Case::ManyHelpers { suite, .. } => with_suite!(suite.as_str(), run_real, &c),
+            Case::AfterRefresh { suite, .. } => with_suite!(suite.as_str(), run_after_refresh, &c),
             Case::Tiny { q, .. } => match q {
                 7 => run_tiny::<7>(&c),
                 11 => run_tiny::<11>(&c),
@@ -152,6 +167,80 @@ impl Prop for C11 {
             },
         }
     }
+}
+
+fn run_after_refresh<C: Suite>(c: &Case) -> Outcome {
+    use super::c10::{Node, refresh_dealer, refresh_dkg};
+    let mut o = Outcome::new();
+    let Case::AfterRefresh { n, t, kind, target, seed, .. } = c else { unreachable!() };
+    let tag = format!("C11/{}", C::name());
+    let ctx = format!("n={n} t={t} repair after refresh ({kind}) target #{target}");
+    let grp = match cached_group::<C>(KeySrc::Dealer, *n, *t, IdKind::U16x, seed) {
+        Ok(g) => g,
+        Err(e) => {
+            o.eval(false);
+            o.fail(format!("{tag}/setup"), e);
+            return o;
+        }
+    };
+    let legacy = kind.contains("legacy");
+    let old_pkp = if legacy { fc::keys::PublicKeyPackage::<C>::new(grp.pkp.verifying_shares().clone(), *grp.pkp.verifying_key(), None) } else { grp.pkp.clone() };
+    let root = Node::<C> { t: *t, kps: grp.kps.clone(), pkp: old_pkp.clone(), prev: None };
+    let node = if kind.starts_with("dealer") { refresh_dealer::<C>(&root, &grp.ids, seed) } else { refresh_dkg::<C>(&root, &grp.ids, seed, *t) };
+    let node = match node {
+        Ok(x) => x,
+        Err(e) => {
+            o.eval(false);
+            o.fail(format!("{tag}/refresh-failed"), format!("{ctx}: {e}"));
+            return o;
+        }
+    };
+    o.eval(true);
+    let tid = grp.ids[*target];
+    // the first t other members help
+    let helpers: Vec<Id<C>> = grp.ids.iter().filter(|i| **i != tid).take(*t as usize).copied().collect();
+    let mut per_helper: BTreeMap<Id<C>, Vec<Delta<C>>> = BTreeMap::new();
+    for h in &helpers {
+        let mut rng = ScriptedRng::ctr(format!("c11-after-refresh:{seed}:{}", id_hex::<C>(h)));
+        match C::w_repair1(&helpers, &node.kps[h], &mut rng, tid) {
+            Ok(d) => {
+                for (to, delta) in d {
+                    per_helper.entry(to).or_default().push(delta);
+                }
+            }
+            Err(e) => {
+                o.fail(format!("{tag}/part1-refused"), format!("{ctx}: {e:?}"));
+                return o;
+            }
+        }
+    }
+    let sigmas: Vec<Sigma<C>> = helpers.iter().map(|h| C::w_repair2(&per_helper[h])).collect();
+    let pkp_for_part3 = if kind.ends_with("stale-pkp") { &old_pkp } else { &node.pkp };
+    match C::w_repair3(&sigmas, tid, pkp_for_part3) {
+        Ok(kp) => {
+            o.count("repairs_after_refresh", 1);
+            let want = &node.kps[&tid];
+            if kp.signing_share() != want.signing_share() {
+                o.fail(format!("{tag}/repaired-share-differs"), format!("{ctx}: the repaired signing share is not the refreshed share of the participant"));
+            }
+            if kp.verifying_share().to_element() != gen_mul::<C>(kp.signing_share().to_scalar()) {
+                o.fail(format!("{tag}/repaired-package-inconsistent"), format!("{ctx}: verifying share of the repaired package != G * its signing share"));
+            }
+            if kp.verifying_key() != grp.pkp.verifying_key() || *kp.min_signers() != *t || *kp.identifier() != tid {
+                o.fail(format!("{tag}/repaired-package-inconsistent"), format!("{ctx}: group key / threshold / identifier wrong in the repaired package"));
+            }
+            // and it signs with the others under the refreshed public key package
+            let mut kps = node.kps.clone();
+            kps.insert(tid, kp);
+            let mut s: Vec<Id<C>> = vec![tid];
+            s.extend(helpers.iter().take(*t as usize - 1));
+            s.sort();
+            super::c01::session_check::<C>(&mut o, &tag, &kps, &node.pkp, &s, &message(2), &format!("{seed}:after-refresh:{target}"));
+        }
+        Err(e) => o.fail(format!("{tag}/part3-refused"), format!("{ctx}: {e:?}")),
+    }
+    o.class("after-refresh");
+    o
 }
 
 fn new_id<C: Suite>(k: usize, n: u16) -> Id<C> {
